@@ -37,6 +37,10 @@ def direct(ctx: Ctx) -> dict:
     for which in c07.GRAMMARS:
         n = len(c07.formulas(which, "quick"))
         items += [(which, i) for i in range(0, n, 1 if not ctx.quick else 2)]
+        # the same programs compiled in LAZY mode (connectives short-circuit): every program with a connective; all of them in the thorough tier
+        forms = c07.formulas(which, "quick")
+        from mc.refconstraint import text as _text
+        items += [(which, i, True) for i in range(n) if (not ctx.quick) or " and " in _text(forms[i]) or " or " in _text(forms[i])]
     items += [("G1pair", i) for i in range(len(pairs()))]
     results = pmap_tagged(direct_work, items, chunk=4)
     st = tr = acc = 0
@@ -118,12 +122,13 @@ def direct_single_work(item):
     from mc.fd import build
     from mc.refconstraint import from_snapshot, holds, merge_whole, text
     from mc.refconstraint import readings as all_readings
-    which, idx = item
+    which, idx = item[0], item[1]
+    lazy = len(item) > 2 and item[2]
     f = c07.formulas(which, "quick")[idx]
     ctext = text(f)
     out = {"constraint": ctext, "pairs": 0, "accepted": 0, "viol": []}
     try:
-        spec = build(c07.GRAMMARS[which].fan(), [ctext])
+        spec = build(c07.GRAMMARS[which].fan(), [ctext], lazy=lazy)
     except Exception:
         return out
     whole = merge_whole(f)
@@ -154,6 +159,6 @@ def direct_single_work(item):
                             break
                     if explained:
                         break
-                out["viol"].append({"kind": "evaluator_accepts_tree_violating_constraint", "grammar": which, "constraint": ctext, "tree": str(tree),
-                                    "explained_by": explained or ["unexplained"], "sig": f"direct:{'+'.join(explained or ['unexplained'])}"})
+                out["viol"].append({"kind": "evaluator_accepts_tree_violating_constraint", "grammar": which, "constraint": ctext, "tree": str(tree), "lazy": bool(lazy),
+                                    "explained_by": explained or ["unexplained"], "sig": f"direct{':lazy' if lazy else ''}:{'+'.join(explained or ['unexplained'])}"})
     return out
